@@ -1,6 +1,6 @@
 """C01 every loaded topology is well formed (structural necessary conditions of the load pipeline)."""
 from prog import *
-import pipe, filt, tab, oblig, setkind, effects, flags, linkfree, union
+import pipe, filt, tab, oblig, setkind, effects, flags, linkfree, union, uaf
 import props.C18 as c18
 import props.C02 as c02
 
@@ -32,12 +32,16 @@ def run(chk, tier):
     chk.rule("R-ARITY", "a function that keeps the arity counters in step with the child lists it splices does so for every splice (sibling agreement inside hwloc_filter_levels_keep_structure: 6 splices)")
     nar = setkind.arity_pairing(chk, P, ["topology.c"])
     chk.floor("R-ARITY", "splices in arity-maintaining functions", nar, 4)
+    chk.rule("R-UAF", "no use of a pointer after it was released: may-dataflow on released lvalues (free, hwloc_bitmap_free, hwloc_free_unlinked_object, closedir, ...), killed by re-assignment, with a correlated-condition path search and whole-program constant fields to discard infeasible paths")
+    nua = uaf.run(chk, P, units=None)
+    chk.floor("R-UAF", "release sites examined", nua, 300)
     chk.rule("R-LINKFREE", "an object handed to an insertion function (which links, merges-and-frees or frees it) is never released afterwards by its creator: no feasible path from an insertion of x to hwloc_free_unlinked_object(x) (may-dataflow + correlated-condition path search)")
     nlf = linkfree.run(chk, P)
     chk.floor("R-LINKFREE", "release sites", nlf, 14)
     chk.rule("R-FLAGS", "topology flag words of hwloc_topology_set_flags")
     flags.run(chk, P, "C01", effects=E)
-    chk.decided += ['type-specific attributes are accessed only under the matching object type in every self-discriminating function of the library',
+    chk.decided += ['no pointer is used (or released again) after its release in any library function',
+                    'type-specific attributes are accessed only under the matching object type in every self-discriminating function of the library',
                     "the load pipeline establishes sets, levels, total memory, symmetric-subtree and group depths in dependency order on every success path",
                     "no object of a filtered-out type is present (creation sites) and the filter table itself is as specified", "special-level depth lookups agree with the type constants",
                     "gp_index values come from one generator", "allowed sets are clipped to the root sets; disallowed sets removed iff INCLUDE_DISALLOWED is unset"]
